@@ -544,6 +544,13 @@ mutual
         have := execs_trace f body _ s1 hs1
         exact this
       · cases h
+    | f + 1, .ifx k body, s, s', h => by
+      simp only [exec] at h
+      split at h
+      · split at h
+        · exact execs_trace f body s s' h
+        · cases h; exact TraceOk.refl s
+      · cases h; exact TraceOk.refl s
   theorem execs_trace : ∀ (f : Nat) (ts : Nodes) (s s' : St), execs f ts s = .ok s' → TraceOk s s'
     | 0, _, _, _, h => by simp [execs] at h
     | _ + 1, .nil, s, s', h => by simp only [execs] at h; cases h; exact TraceOk.refl s
